@@ -11,10 +11,11 @@ CLOSED = {'Paragraph', 'Heading', 'SetextHeading', 'ThematicBreak', 'Quote', 'Ta
 BOUNDS = {'quick': (2, 2), 'thorough': (3, 2)}
 L = spaces.LINES + ['<!-- x -->', '> <!-- c', '> ```', '> <?p', '<x-y>']
 # B is additionally enumerated to 3 lines over the lines that read or write parser scratch state
-LB3 = ['<div>', '', 'foo', '```', '# h', '> q', '- a', '<!-- x -->', '===', '<x-y>']
+LB3 = ['<div>', '', 'foo', '```', '# h', '> q', '- a', '<!-- x -->', '===', '<x-y>', '-']
 # family F2: A = X + blank line + closing paragraph (so that any X qualifies as "ending in a closed block"); X holds
 # look-aheads that are made but not consumed (indented table rows after a paragraph, ...)
-LX = ['foo', '    | a | b |', '    |---|---|', '| a | b |', '|---|---|', '- a', '  b', '> q', '```', '<div>', '    c', '']
+LX = ['foo', '    | a | b |', '    |---|---|', '| a | b |', '|---|---|', '- a', '  b', '> q', '```', '<div>', '    c', '', '-']
+LT = ['-', '', '- a', 'foo']
 LBX = LB3 + ['  b', '| a | b |', '|---|---|']
 
 
@@ -137,6 +138,7 @@ def run_job(job):
         _, which, i, j, k = job
         alpha = LX if which == 'LX' else L + ['    | a | b |', '    |---|---|']
         Bs = [list(b) for n in (1, 2) for b in itertools.product(LBX, repeat=n) if b[-1].strip()]
+        Bs += [list(b) for b in itertools.product(LT, repeat=3) if b[-1].strip()]
         Xs = [[alpha[i]]] if j == 0 else []
         Xs += [[alpha[i], alpha[j]]] + [[alpha[i], alpha[j], x] for x in alpha]
         for X in Xs:
